@@ -1,3 +1,4 @@
 INIT InitInsertRegs
 NEXT Next
 INVARIANT InsertRegsOK
+CHECK_DEADLOCK FALSE
